@@ -67,8 +67,14 @@ func gen(tier string, seed int64) []hx.Scenario {
 			}
 		}
 	}
-	for _, m := range []string{"honest", "xH", "xG", "C", "R", "VG", "VH", "G", "H", "swapGH"} {
-		out = append(out, hx.Scenario{Name: "dleq", Cfg: "mut=" + m, Run: func(x *hx.Ctx) { dleqCase(x, m) }})
+	for _, m := range []string{"honest", "xH", "xG", "C", "R", "VG", "VH", "G", "H", "swapGH", "xHnull", "xHisxG'"} {
+		out = append(out, hx.Scenario{Name: "dleq", Cfg: "mut=" + m, Run: func(x *hx.Ctx) { dleqCase(x, m, "indep") }})
+	}
+	// degenerate statements: equal bases, one base a known multiple of the other
+	for _, rel := range []string{"same", "multiple"} {
+		for _, m := range []string{"honest", "xH", "xG", "C", "R", "VG", "VH", "xHnull", "xHisxG'"} {
+			out = append(out, hx.Scenario{Name: "dleq", Cfg: "bases=" + rel + " mut=" + m, Run: func(x *hx.Ctx) { dleqCase(x, m, rel) }})
+		}
 	}
 	for k := 1; k <= 3; k++ {
 		out = append(out, hx.Scenario{Name: "dleq-batch", Cfg: fmt.Sprintf("k=%d", k), Run: func(x *hx.Ctx) { dleqBatch(x, k) }})
@@ -317,10 +323,17 @@ func decMut(x *hx.Ctx, n, t, j int, mut string) {
 	}
 }
 
-func dleqCase(x *hx.Ctx, mut string) {
+// rel: relation between the two bases: "indep" (independent), "same" (H = G), "multiple" (H = k*G)
+func dleqCase(x *hx.Ctx, mut, rel string) {
 	s := x.S
 	G := s.Point().Pick(s.RandomStream())
 	H := s.Point().Pick(s.RandomStream())
+	switch rel {
+	case "same":
+		H = G.Clone()
+	case "multiple":
+		H = s.Point().Mul(s.Scalar().Pick(s.RandomStream()), G)
+	}
 	sec := s.Scalar().Pick(s.RandomStream())
 	p, xG, xH, err := dleq.NewDLEQProof(s, G, H, sec)
 	x.NoErr("NewDLEQProof", err)
@@ -359,6 +372,11 @@ func dleqCase(x *hx.Ctx, mut string) {
 		H = s.Point().Add(H, dP)
 	case "swapGH":
 		G, H = H, G
+	case "xHnull":
+		xH = s.Point().Null()
+	case "xHisxG'":
+		// the second claimed point replaced by a valid-looking multiple of the FIRST base with another exponent
+		xH = s.Point().Mul(s.Scalar().Add(sec, dS), G)
 	}
 	x.Err("Verify after mutation "+mut, p.Verify(s, G, H, xG, xH))
 }
